@@ -20,7 +20,8 @@ RULE = ('A real Crazyflie is fully connected (deterministic scheduler, virtual t
         '(index width, bytes decode to the requested value), refusal without transmission for RO/unknown/out-of-range, wire order == '
         'queue-put order with each request sent only after the previous reply was dispatched, per-reply callback/cached-value equality, '
         'and exactly-once correctly-typed delivery of every misc reply to its own request. Non-trivial = >= 2 threads issuing, >= 3 misc '
-        'requests outstanding at once, or a boundary/out-of-range value.')
+        'requests outstanding at once, or a boundary/out-of-range value. Listeners: one-shot ones that remove themselves (called exactly once), '
+        'permanent ones that compare get_value() with the value they are told.')
 ASSUMPTIONS = ['FP16 parameters are excluded (the statement lists the ten types)',
                'default values whose first little-endian byte equals ENOENT (2) are excluded: value and error replies are byte-identical on the wire',
                'integer parameters get integral inputs (ints or integer strings)',
